@@ -7,7 +7,8 @@ R01a ElGamal shapes: masking gives (g^r, m*h^r), re-masking (c_1*g^r, c_2*h^r), 
      the generator with c_1 and the common key with c_2, everything modulo p,
 R01b decryption chain: the accumulator d starts as c_1^{x_i}, is multiplied modulo p by a received
      share only on the path where the equality-of-discrete-logs proof for that very share, the
-     stored key of that player and this c_1 was accepted, and the opening is c_2 * d^{-1} mod p;
+     stored key of that player and this c_1 was accepted and the share passed the subgroup membership
+     test, and the opening is c_2 * d^{-1} mod p;
      the share a player publishes is c_1^{x_i} with the proof for (d_i, h_i, c_1, g),
 R01c type table of the discrete-log encoding: encoder and decoder fill message_space[t] with
      IndexElement(., t) for the index they access, IndexElement is g^index mod p, the decoder
@@ -169,6 +170,12 @@ def r01b(ctx):
                             proved = True
                 if not proved:
                     bad = 'the share is multiplied into d without an accepted proof CP(d_j, h_j, c_1, g) for this very share and this c_1'
+                    break
+                member = any(T.node(fa)[0] == 'truthy' and T.node(T.node(fa)[1])[0] == 'mc' and T.node(T.node(fa)[1])[1].endswith('::CheckElement') and
+                             sh in T.node(T.node(fa)[1])[3:] for fa in facts)
+                if not member:
+                    bad = ('the share is multiplied into d without the subgroup membership test: the proof binds it only up to factors of small order '
+                           '(-c_1^{x_j} verifies for every even challenge), and the card then opens to the sentinel instead of its type')
                     break
             if not acc:
                 bad = 'no accepting exit'
